@@ -143,6 +143,7 @@ class SimNet:
         self.call = 0
         self.blocked: list = []  # (call, sockid): a read that could never complete
         self.raw_io: list = []  # I/O on an unwrapped socket although TLS is configured
+        self.tls_required = False  # harness: every connection of this scenario is meant to be TLS-wrapped
         self.failing: dict = {}  # addrkey -> 'refused' | 'timeout' | 'reset' | 'unreach'  (persistent, C13)
         self.sent: list = []  # (call, sockid, bytes) everything handed to sendall and delivered
         self.rx: list = []  # (call, sockid, bytes) everything returned by recv
@@ -287,7 +288,7 @@ class SimSocket:
             net.sched.point("sock")
         if net.socket_guard is not None:
             net.socket_guard(self, what)
-        if self.shadow:
+        if self.shadow or (net.tls_required and not self.tls and what in ("sendall", "recv")):
             net.raw_io.append((net.call, self.sid, what))
         if self.state == "closed":
             net.log(what + "_on_closed", self)
